@@ -51,6 +51,8 @@ type c09Client struct {
 	started bool
 	done    bool
 	err     error
+
+	delPark *c09DeletePark // set while the client sits in the cache delete callback
 }
 
 func (c *c09Client) isDone() (bool, error) {
@@ -112,9 +114,27 @@ func c09NewCtlEnv(mode string) (*c09CtlEnv, error) {
 		LifecycleContext:  context.Background(),
 		NewCache:          c09NewCacheFn,
 		BestDialerChooser: c09BestDialer,
+		// the production seam between a client's own cache lookup (which evicts an
+		// expired entry) and its entry into the singleflight
+		CacheDeleteCallback: w.cacheDeleteCallback,
 	})
 	if err != nil {
 		return nil, err
+	}
+	// "one upstream resolution": no upstream call may start while the cache holds a
+	// fresh answer to that very question (the resolution inside the singleflight has
+	// to look again before it dials).
+	w.onForward = func(f *c09Fwd, req *dnsmessage.Msg) string {
+		q := req.Question[0]
+		base := ctl.cacheKey(q.Name, q.Qtype)
+		for _, key := range []string{base + "|asis@" + f.target.String(), base + "|upstream@" + f.upstream} {
+			if v, ok := ctl.dnsCache.Load(key); ok {
+				if e := v.(*DnsCache); e.Deadline.After(time.Now()) {
+					return fmt.Sprintf("an upstream resolution for %s/%d was started on forwarder #%d although the cache holds a fresh answer under %q (identical overlapping questions must be resolved once)", q.Name, q.Qtype, f.id, key)
+				}
+			}
+		}
+		return ""
 	}
 	orig := dnsForwarderFactory
 	dnsForwarderFactory = w.factory
@@ -256,6 +276,23 @@ func c09CheckClientReplies(cl *c09Client) error {
 func c09ControllerCase(t *rapid.T) {
 	mode := rapid.SampledFrom(c09Modes).Draw(t, "mode")
 	clients := c09GenClients(t, mode)
+	directed := rapid.IntRange(0, 3).Draw(t, "directedOverlap") == 0
+	if directed {
+		// three clients with the identical question (IDs and letter case stay as drawn)
+		for len(clients) < 3 {
+			cp := *clients[0]
+			clients = append(clients, &c09Client{idx: len(clients), name: cp.name, lname: cp.lname, qtype: cp.qtype, id: cp.id ^ uint16(len(clients)), realDst: cp.realDst, w: &c09Writer{}})
+		}
+		for _, cl := range clients[1:3] {
+			cl.lname, cl.qtype, cl.realDst, cl.key = clients[0].lname, clients[0].qtype, clients[0].realDst, clients[0].key
+			cl.name = c09MangleCase(cl.lname, uint32(cl.id)*2654435761)
+			m := new(dnsmessage.Msg)
+			m.Id = cl.id
+			m.RecursionDesired = true
+			m.Question = []dnsmessage.Question{{Name: cl.name, Qtype: cl.qtype, Qclass: dnsmessage.ClassINET}}
+			cl.msg = m
+		}
+	}
 	env, err := c09NewCtlEnv(mode)
 	if err != nil {
 		t.Fatalf("harness: cannot build controller: %v", err)
@@ -273,7 +310,9 @@ func c09ControllerCase(t *rapid.T) {
 		var out []*c09Client
 		for _, cl := range clients {
 			cl.mu.Lock()
-			if cl.started && !cl.done && cl.key == key {
+			// a client parked between its cache miss and the singleflight is in
+			// flight but not (yet) a waiter of any resolution
+			if cl.started && !cl.done && cl.key == key && (cl.delPark == nil || w.deleteReturned(cl.delPark)) {
 				out = append(out, cl)
 			}
 			cl.mu.Unlock()
@@ -293,7 +332,7 @@ func c09ControllerCase(t *rapid.T) {
 
 	faulty, maxWaiters, coalesced := false, 0, false
 
-	doRelease := func(call *c09Call) {
+	doRelease := func(call *c09Call, forced *c09Action) {
 		key := env.callKey(call)
 		before := inflightOfKey(key)
 		if len(before) > maxWaiters {
@@ -303,7 +342,16 @@ func c09ControllerCase(t *rapid.T) {
 			coalesced = true
 			classes["coalesced"] = true
 		}
-		act := c09DrawAction(t, call, c09UnitCtl)
+		var act c09Action
+		if forced != nil {
+			act = *forced
+			act.respID = call.req.Id
+			if call.fwd.proto != consts.L4ProtoStr_UDP {
+				act.respID = 7
+			}
+		} else {
+			act = c09DrawAction(t, call, c09UnitCtl)
+		}
 		if act.kind != c09ActOK {
 			faulty = true
 		}
@@ -385,7 +433,58 @@ func c09ControllerCase(t *rapid.T) {
 		}
 	}
 
+	// startStep starts a client; with arm, a cache lookup of that client that evicts an
+	// expired entry parks in the delete callback, i.e. after the client's cache miss
+	// and before it enters the singleflight.
+	startStep := func(cl *c09Client, arm bool) {
+		nParks := len(w.parkedDeletes())
+		w.armDeletePark(arm)
+		trace = append(trace, "start "+cl.String())
+		env.startClient(cl)
+		synctest.Wait()
+		w.armDeletePark(false)
+		if ps := w.parkedDeletes(); len(ps) > nParks {
+			cl.mu.Lock()
+			cl.delPark = ps[len(ps)-1]
+			cl.mu.Unlock()
+			classes["parked-between-miss-and-singleflight"] = true
+			trace = append(trace, fmt.Sprintf("  (%s evicted the expired entry %q and is parked in the delete callback)", cl, cl.delPark.key))
+		}
+	}
+	parkedForKey := func(key string) *c09Call {
+		for _, c := range w.parked() {
+			if env.callKey(c) == key {
+				return c
+			}
+		}
+		return nil
+	}
+
 	started := 0
+	if directed {
+		// Aimed prefix: P resolves the question with a short TTL; the entry expires; B
+		// asks the same, evicts the expired entry and is parked before the singleflight;
+		// A asks the same and its resolution completes (and is cached). What happens
+		// when B goes on is left to the random schedule below.
+		classes["directed-overlap"] = true
+		p, b, a := clients[0], clients[1], clients[2]
+		startStep(p, false)
+		for i := 0; i < 2; i++ { // tcp+udp: at most UDP then TCP
+			if c := parkedForKey(p.key); c != nil {
+				doRelease(c, &c09Action{kind: c09ActOK, ansKind: c09AnsTTL2})
+			}
+		}
+		trace = append(trace, "advance 3s")
+		time.Sleep(3 * time.Second)
+		synctest.Wait()
+		startStep(b, true)
+		startStep(a, false)
+		if c := parkedForKey(a.key); c != nil {
+			shape := rapid.SampledFrom([]int{c09AnsAddr, c09AnsAddr, c09AnsCname, c09AnsEmpty, c09AnsTTL2}).Draw(t, "overlapAnswerShape")
+			doRelease(c, &c09Action{kind: c09ActOK, ansKind: shape})
+		}
+		started = 3
+	}
 	for step := 0; step < 120; step++ {
 		synctest.Wait()
 		w.failOnViolations(t, &trace)
@@ -397,6 +496,9 @@ func c09ControllerCase(t *rapid.T) {
 		}
 		if len(parked) > 0 {
 			opts = append(opts, "release", "release")
+		}
+		if len(w.parkedDeletes()) > 0 {
+			opts = append(opts, "unpark")
 		}
 		if len(opts) == 0 {
 			break
@@ -412,13 +514,22 @@ func c09ControllerCase(t *rapid.T) {
 					classes["joins-inflight"] = true
 				}
 			}
-			trace = append(trace, "start "+cl.String())
-			env.startClient(cl)
+			startStep(cl, rapid.IntRange(0, 1).Draw(t, "parkIfItEvicts") == 0)
+		case "unpark":
+			ps := w.parkedDeletes()
+			p := ps[rapid.IntRange(0, len(ps)-1).Draw(t, "whichPark")]
+			// did a resolution of the same question complete while it was parked?
+			if v, ok := env.c.dnsCache.Load(p.key); ok && v.(*DnsCache).Deadline.After(time.Now()) {
+				classes["unpark-after-other-resolution-cached"] = true
+				faulty = true
+			}
+			trace = append(trace, fmt.Sprintf("unpark the client waiting in the delete callback of %q", p.key))
+			w.releaseDelete(p)
 		case "release":
 			call := parked[rapid.IntRange(0, len(parked)-1).Draw(t, "which")]
-			doRelease(call)
+			doRelease(call, nil)
 		case "advance":
-			d := rapid.SampledFrom([]time.Duration{time.Millisecond, 900 * time.Millisecond, 6 * time.Second, 9 * time.Second, 31 * time.Second, 125 * time.Second}).Draw(t, "sleep")
+			d := rapid.SampledFrom([]time.Duration{time.Millisecond, 900 * time.Millisecond, 3 * time.Second, 6 * time.Second, 9 * time.Second, 31 * time.Second, 61 * time.Second, 125 * time.Second}).Draw(t, "sleep")
 			trace = append(trace, "advance "+d.String())
 			time.Sleep(d)
 		}
@@ -437,7 +548,12 @@ func c09ControllerCase(t *rapid.T) {
 		}
 		parked := w.parked()
 		if len(parked) > 0 {
-			doRelease(parked[0])
+			doRelease(parked[0], nil)
+			continue
+		}
+		if ps := w.parkedDeletes(); len(ps) > 0 {
+			trace = append(trace, fmt.Sprintf("unpark the client waiting in the delete callback of %q", ps[0].key))
+			w.releaseDelete(ps[0])
 			continue
 		}
 		allDone := true
